@@ -108,9 +108,9 @@ def main(tier):
         return rep.finish()
     n = 100 if tier == "quick" else 2500
     scns = [scenario(rng, k) for k in range(n)]
-    # a long-lived project: many hundreds of recorded versions go through one archive / restore (quick: 700; thorough: 5,200,
+    # a long-lived project: many hundreds of recorded versions go through one archive / restore (quick: 700; thorough: 1,100,
     # as all versions and as each task's newest)
-    for j, (nb, latest) in enumerate([(700, False)] if tier == "quick" else [(5200, False), (2100, True), (1025, False)]):
+    for j, (nb, latest) in enumerate([(700, False)] if tier == "quick" else [(1100, False), (1100, True), (1025, False)]):
         brng = random.Random(rng.randrange(1 << 30))
         sel = {"task": None, "latest": latest}
         scns.append({"project": G.base_project(brng), "tag": [n + j, "bulk", latest], "steps": [
